@@ -793,11 +793,12 @@ func (c *Chain) ExportGenesis(zeroHeight bool, prep func(ctx sdk.Context)) (out 
 }
 
 // ResultsDigest hashes what C11 calls transaction results: code, codespace, data
-// (not events or logs).
+// and gas (the deterministic part of a result, which CometBFT hashes into the
+// block's LastResultsHash) — not events or logs.
 func ResultsDigest(txs []*abci.ExecTxResult) string {
 	h := sha256.New()
 	for _, t := range txs {
-		fmt.Fprintf(h, "%d|%s|%x\n", t.Code, t.Codespace, t.Data)
+		fmt.Fprintf(h, "%d|%s|%x|%d|%d\n", t.Code, t.Codespace, t.Data, t.GasWanted, t.GasUsed)
 	}
 	return hex.EncodeToString(h.Sum(nil))
 }
